@@ -157,6 +157,28 @@ fn with_values<R>(meta: &'static Metadata<'static>, vals: &PVals, f: impl FnOnce
     dynsite::with_value_set(meta.fields(), &values, f)
 }
 
+thread_local! {
+    /// call sites of the program being run, and the events emitted from inside `Debug` impls since
+    /// the runner last looked
+    static NESTED: std::cell::RefCell<(Vec<&'static Metadata<'static>>, Vec<usize>)> = const { std::cell::RefCell::new((Vec::new(), Vec::new())) };
+}
+
+/// Called from the `Debug` impl of a `dbgev` value: the guest's own code uses tracing while one of
+/// its values is being rendered. The event goes to whatever subscriber is current.
+pub fn nested_emit(k: usize) {
+    let meta = NESTED.with(|n| n.borrow().0.get(k).copied());
+    if let Some(meta) = meta {
+        tracing_core::dispatcher::get_default(|d| {
+            dynsite::with_value_set(meta.fields(), &[], |vs| d.event(&Event::new(meta, vs)));
+        });
+        NESTED.with(|n| n.borrow_mut().1.push(k));
+    }
+}
+
+fn take_nested() -> Vec<usize> {
+    NESTED.with(|n| std::mem::take(&mut n.borrow_mut().1))
+}
+
 /// What the front end did for each program operation (the program's own operation log).
 #[derive(Debug, Clone, PartialEq)]
 pub enum FeCall {
@@ -189,7 +211,9 @@ pub struct Runner {
 
 impl Runner {
     pub fn new(sites: &[Site]) -> Self {
-        Self { metas: sites.iter().map(dynsite::metadata_for).collect(), handles: vec![], registered: HashSet::new(), interest: Default::default(), log: vec![] }
+        let metas: Vec<&'static Metadata<'static>> = sites.iter().map(dynsite::metadata_for).collect();
+        NESTED.with(|n| *n.borrow_mut() = (metas.clone(), vec![]));
+        Self { metas, handles: vec![], registered: HashSet::new(), interest: Default::default(), log: vec![] }
     }
 
     /// The macros' decision: the process-wide maximum level, then the interest the subscriber
@@ -261,7 +285,13 @@ impl Runner {
             },
             POp::Rec { s, vals } => {
                 if let Some((id, k)) = self.handles.get(*s).cloned().flatten() {
+                    let _ = take_nested();
                     with_values(metas[k], vals, |vs| dispatch.record(&id, &Record::new(vs)));
+                    // events the values' own `Debug` impls emitted while they were being rendered
+                    // come first: they are subscriber operations of the program too
+                    for ke in take_nested() {
+                        log.push(FeCall::Event { k: ke, parent: PParent::Ctx.tok(), vals: vec![] });
+                    }
                     log.push(FeCall::Record { id: id.into_u64(), k, vals: vals.clone() });
                 }
             }
@@ -324,12 +354,19 @@ impl Runner {
 
 /// Runs the program against `dispatch`; returns the log of subscriber calls made.
 pub fn run(dispatch: &Dispatch, prog: &Program) -> Vec<FeCall> {
+    run_probed(dispatch, prog, |_| {})
+}
+
+/// The same, calling `after(i)` when operation number `i` has been executed (the program's own
+/// code looking at what has been recorded so far).
+pub fn run_probed(dispatch: &Dispatch, prog: &Program, mut after: impl FnMut(usize)) -> Vec<FeCall> {
     if prog.malformed {
         return vec![];
     }
     let mut runner = Runner::new(&prog.sites);
-    for op in &prog.ops {
+    for (i, op) in prog.ops.iter().enumerate() {
         runner.step(dispatch, op);
+        after(i);
     }
     runner.log
 }
